@@ -1,8 +1,25 @@
-//! C03 — not built yet.
+//! C03 — each instruction takes the documented T-states in the documented bus cycles.
+//! Same generator, real-code runner and Lean driver as C01 (harness/src/c01.rs); what is compared
+//! is the ordered (kind, address, clocks) sequence of bus cycles received by the recording bus
+//! and the T-state total of every step. For interrupt entry only the total and the memory cycles
+//! are compared (the property fixes no order for the internal T-states there).
+use crate::c01::*;
 use crate::util::*;
 
-pub fn run(_o: &Opts) -> Report {
+pub fn run(o: &Opts) -> Report {
     let mut rep = Report::new("C03");
-    rep.notes.push("not built yet".into());
+    rep.rule = "all 1792 opcode encodings x 9 forced start states that select every timing variant (F=00 and F=FF: \
+every condition false/true; B=1, B=2: DJNZ and INIR/INDR/OTIR/OTDR last/repeat; BC=1, BC=2: LDIR/LDDR/CPIR/CPDR \
+last/repeat; A=(HL): CPIR/CPDR found) + seeded random states, one Z80::emulate each; random instruction sequences; \
+interrupt entry in IM 0/1/2 and NMI, halted or not. Compared per step: the ordered (kind, address, clocks) sequence \
+of wait_mreq / wait_no_mreq / wait_internal / port cycles and the T-state total (interrupt entry: total and memory \
+cycles). distinct/non-trivial = distinct (encoding or interrupt kind, T-states consumed) pairs"
+        .into();
+    let mut model = Model::spawn(&o.model, "C01");
+    if let Some(text) = &o.replay {
+        replay(o, Mode::C03, &mut rep, &mut model, text);
+        return rep;
+    }
+    sweep(o, Mode::C03, &mut rep, &mut model);
     rep
 }
